@@ -71,15 +71,32 @@ def genf(seed):
     seg = r.choice([0x60,0x80,0xc8,0x100,0x200,0x400,0x1000])
     toks = ["fhist %x 1"%seg]
     first=last=0
+    delmode=0            # remaining calls during which every deletion fails
+    def pre(f, isopen=False):
+        # step prefix: plain counted fault, or (40% of the faulty steps) the fault modes of
+        # coq/Wal/FaultHist.v: 1 deletions fail, 2 listing fails (Open only), 4 create leaves the file
+        nonlocal delmode
+        if delmode>0:
+            delmode-=1
+            fl = 1 | (2 if isopen and r.random()<0.3 else 0)
+            cnt = "c8" if (f=="-" or r.random()<0.7) else f
+            if cnt!="c8" and r.random()<0.5: fl |= 4
+            return "g %s %x"%(cnt,fl)
+        if f!="-" and r.random()<0.4:
+            fl = 4 if r.random()<0.7 else r.choice([1,5])
+            return "g %s %x"%(f,fl)
+        if isopen and r.random()<0.25: return "g c8 2"
+        return "f %s"%f
     for _ in range(r.randrange(3,30)):
         x=r.random()
         if x<0.08: toks.append("z"); continue
+        if delmode==0 and r.random()<0.06: delmode=r.randrange(1,5)
         f = "%x"%r.randrange(0,5) if r.random()<0.35 else "-"
         y=r.random()
         if y<0.5:
             k=r.randrange(1,4); start=last+1 if last else r.choice([1,1,2,5,100])
             if r.random()<0.1: start+=r.randrange(1,3)
-            toks.append("f %s S %x %s"%(f,k,' '.join(log(start+i,r) for i in range(k))))
+            toks.append("%s S %x %s"%(pre(f),k,' '.join(log(start+i,r) for i in range(k))))
             if f=="-" :
                 if last==0: first=start; last=start+k-1
                 elif start==last+1: last=start+k-1
@@ -89,7 +106,7 @@ def genf(seed):
                     if last==0: first=start
                     last=start+k-1
         elif y<0.72:
-            if last==0: toks.append("f %s D %x %x"%(f,r.randrange(3),r.randrange(8))); continue
+            if last==0: toks.append("%s D %x %x"%(pre(f),r.randrange(3),r.randrange(8))); continue
             fi,l=first,last; c=r.randrange(6)
             if c==0: mn,mx=0,r.randrange(fi,l+1)
             elif c==1: mn,mx=r.randrange(fi,l+1),l+r.randrange(3)
@@ -97,17 +114,17 @@ def genf(seed):
             elif c==3: mn,mx=l,l
             elif c==4: mn,mx=fi,fi
             else: mn,mx=r.randrange(fi,l+1),r.randrange(fi,l+2)
-            toks.append("f %s D %x %x"%(f,mn,mx))
+            toks.append("%s D %x %x"%(pre(f),mn,mx))
             if not(mn>mx or mx<first or mn>last):
                 if mn<=first:
                     if mx>=last: first=last=0
                     else: first=mx+1
                 elif mx>=last: last=mn-1
         elif y<0.82: toks.append("f - G %x"%r.randrange(max(first,1)-1 if first else 0,last+3))
-        elif y<0.88: toks.append("f %s K 6b %02x"%(f,r.randrange(256)))
+        elif y<0.88: toks.append("%s K 6b %02x"%(pre(f),r.randrange(256)))
         elif y<0.92: toks.append("f - k 6b")
         elif y<0.95: toks.append("f - L")
-        else: toks.append("f %s R"%f)
+        else: toks.append("%s R"%pre(f,True))
     return ' '.join(toks)
 if __name__=="__main__":
     if sys.argv[1]=="f":
